@@ -155,12 +155,12 @@ def make_source(rng, sc, zone, sign, zones=None, amax=9.0, limit_overlap=True):
             if not (_clear_of_boundaries(row, H) and _clear_of_boundaries(col, W)):
                 continue
             if limit_overlap and zone not in OFF_ZONES:
-                # at most three sources' 5-sigma footprints on any pixel (float32 accumulation
+                # at most two sources' 5-sigma footprints on any pixel (float32 accumulation
                 # stays inside the property's 1e-6 for every summation order)
                 rad = 5.0 * a_px * synth.FWHM2SIG + 3.0
                 yy, xx = np.ogrid[0:H, 0:W]
                 foot = (yy - row) ** 2 + (xx - col) ** 2 <= rad * rad
-                if (sc["cov"][foot] >= 3).any():
+                if (sc["cov"][foot] >= 2).any():
                     continue
                 sc["cov"][foot] += 1
         a = a_px * cd
@@ -815,7 +815,7 @@ def _batches(recs):
     out, cur, size = [], [], 0
     for r in recs:
         s = 50 + sum(len(m) for m in r.get("models", [])) + len(r.get("blank", []))
-        if cur and (size + s > 400000 or len(cur) >= 3000):
+        if cur and (size + s > 1500000 or len(cur) >= 3000):
             out.append(cur)
             cur, size = [], 0
         cur.append(r)
@@ -834,7 +834,7 @@ def run(ctx):
     base = ctx.seed * 1000003
     tasks = []
     # (1) the option lattice, every element (x seeds), API and CLI alternating
-    reps = 1 if quick else 8
+    reps = 1 if quick else 6
     for n, el in enumerate(lattice):
         for k in range(reps):
             via = "cli" if (n + k) % 2 else "api"
@@ -842,19 +842,19 @@ def run(ctx):
             tasks.append(("run", base + 7 * (n * reps + k) + 1, el["op"], el["thr"], el["renaming"], el["proj"],
                           el["shape"], via, zones))
     # (2) seeded runs outside the lattice: mixed catalogues, rotated headers, float64 / 4-D images
-    for k in range(96 if quick else 1600):
+    for k in range(160 if quick else 3500):
         tasks.append(("run", base + 500000 + k, rng.choice(["subtract", "add", "mask", "mask"]),
                       rng.choice(["frac", "sigma"]), rng.choice(["default", "default", "renamed"]),
                       rng.choice(["SIN", "TAN", "ZEA"]), "mixed", rng.choice(["api", "api", "cli"]), None))
     # (3) one source at a time against the independent renderer, every position class
     zones = ["in"] * 4 + ["near"] * 3 + ["border"] * 2 + ["just"] * 2 + ["off", "far", "sky"]
-    for k in range(480 if quick else 8000):
+    for k in range(800 if quick else 12000):
         tasks.append(("single", base + 600000 + k, zones[k % len(zones)], ["SIN", "TAN", "ZEA"][k % 3]))
     # (4) catalogue subsets
-    for k in range(160 if quick else 2400):
+    for k in range(240 if quick else 4000):
         tasks.append(("additive", base + 700000 + k, ["SIN", "TAN", "ZEA"][k % 3]))
     # (5) find -> subtract
-    for k in range(32 if quick else 480):
+    for k in range(32 if quick else 600):
         tasks.append(("loop", base + 800000 + k, ["csv", "tab"][k % 2], ["api", "cli"][(k // 2) % 2]))
 
     d = os.path.join(ctx.workdir, "files")
@@ -898,8 +898,8 @@ def run(ctx):
         "for a negative source 'exceeds its threshold' is accepted in either reading (signed comparison or magnitudes)",
         "mask thresholds are 1.2e-3..0.94 of the peak and kept >= 1e-5 relative away from every model value "
         "(regenerated otherwise); sigma mode catalogues carry local_rms",
-        "at most three sources' 5-sigma footprints overlap on a pixel and image values stay within ~2x the peak so that "
-        "float32 accumulation stays inside the property's 1e-6 for any summation order",
+        "at most two sources' 5-sigma footprints overlap on a pixel, catalogues hold <= 7 sources and image values stay within "
+        "~2x the peak so that float32 accumulation stays inside the property's 1e-6 for any summation order",
         "closed loop: sources sampled with >= 4 px per FWHM, at least the beam in size, peaks within a factor 3, "
         "rms = 1% of the faintest, docov=False, catalogue saved as csv / tab (FITS tables are float32 by format, C18; "
         "astropy's VOTable writer is avoided: its C extension corrupts the heap in this environment, so VOTable "
